@@ -452,9 +452,6 @@ program_t *load_binary (const char *name) {
   object_t *ob;
   struct stat st;
 
-  /* stuff from prolog() */
-  num_parse_error = 0;
-
   if (!CONFIG_STR(__SAVE_BINARIES_DIR__))
     return OUT_OF_DATE;
   /* object names can be as long as a path: one that does not fit has no binary */
